@@ -243,9 +243,12 @@ def exec_history(pid, tpl, seed, hid, ops, keys, plen, lib_only=False):
         locked_pw = keys["alice"]["password"]
         # every library-level key encryption of this history runs in ONE process, one after the other
         # (identical inputs): randomness cached across calls within a process must show
-        lib_idx = [k for k, op in enumerate(ops) if op == "kenc" and (k % 2 == 0 or lib_only)]
+        lib_idx = [k for k, op in enumerate(ops) if op == "rand" or (op == "kenc" and (k % 2 == 0 or lib_only))]
         lib_ops = []
         for k in lib_idx:
+            if ops[k] == "rand":
+                lib_ops.append({"op": "rand", "id": "%s.%d" % (hid, k)})
+                continue
             reads = [[], [7, 3], [1, 1, 1], [1000, 65536, 5], [65536, 100, 65536]][(k // 2 + len(hid)) % 5]
             lib_ops.append({"op": "kenc_draws", "kseed": 1, "rseed": 1, "plen": max(plen, 12), "reads": reads, "id": "%s.%d" % (hid, k)})
         lib_res = dict(zip(lib_idx, cli.driver_ops(pid, tpl, lib_ops, seed, hid + "lib"))) if lib_ops else {}
@@ -257,6 +260,11 @@ def exec_history(pid, tpl, seed, hid, ops, keys, plen, lib_only=False):
 
             def seal(key, nonce, index):
                 evs.append({"ev": "seal", "id": tag, "op": op, "key": key, "nonce": nonce, "index": index})
+            if op == "rand":
+                o = lib_res[k]
+                draw("random", o.get("random"), o.get("ok"))
+                draw("privkey", o.get("privkey"), o.get("ok"))
+                continue
             if op == "kenc" and k in lib_res:
                 o = lib_res[k]
             elif op == "kenc":
@@ -352,7 +360,7 @@ def c07(pid, tier, seed, selftest=False):
     # shorter histories are prefixes of these; add a few long repeated-identical ones
     hists += [["kenc"] * 6, ["penc"] * 6, ["generate"] * 5, ["generate"] + ["changepass"] * 5]
     n_model = len(hists)
-    hists += [["kenc"] * 5, ["kenc"] * 2]       # library only, one process
+    hists += [["kenc"] * 5, ["kenc"] * 2, ["rand"] * 6, ["rand", "kenc", "rand", "kenc"]]       # library only, one process
     keys = cli.make_keys(pid, tpl, seed, [("alice", b"alice-pw"), ("bob", b"bob-pw")])
     all_evs = []
 
